@@ -22,7 +22,9 @@ META = {
              "grid x bit triples x every permutation (subsets of <= 5 chunks; "
              "20 sampled permutations above). non-trivial = an out-of-order "
              "arrival that had to be buffered and a gap; distinct by the "
-             "whole case."),
+             "whole case."
+             ' Also: bytes / bytearray (overwritten by the caller right af'
+             'ter the call) / flat memoryview payloads.'),
     "exhaustive_parts": ["perm_exhaustive: all subsets of a 2x2x2 grid, all "
                          "permutations for <= 5 chunks, triples in a fixed "
                          "list (quick) / all of {0,1,2}^3 (thorough)"],
